@@ -205,6 +205,9 @@ func deflateRaw(p []byte, level int) []byte {
 // a client); with compressed, every data message is a single compressed frame
 // with RSV1 set.
 func seedFrames(t *rapid.T, label string, masked, compressed bool) []byte {
+	if !compressed && rapid.IntRange(0, 5).Draw(t, label+".edge") == 0 {
+		return utf8EdgeStream(t, label+".edge", masked)
+	}
 	fs := gen.Conversation(t, label, gen.ConvOpts{Masked: masked, MaxMsgs: 3, MaxPayload: 200, Close: true,
 		Big: rapid.IntRange(0, 15).Draw(t, label+".big") == 0})
 	if compressed {
@@ -520,12 +523,81 @@ func deflateSpecial(t *rapid.T, b []byte) []byte {
 }
 
 func TestMutDeflate(t *testing.T) {
-	m := mutator{consts: deflateConsts(), special: deflateSpecial}
+	m := mutator{consts: append(deflateConsts(), partSep), special: deflateSpecial}
 	hx.Check(t, 2, func(t *rapid.T) {
 		ctl := drawCtl(t, defCtl)
+		e := rapid.IntRange(0, len(defEntries)-1).Draw(t, "entry")
+		ctl[0] = ctl[0]&0xf0 | byte(e) // entry = low nibble (mod 5 of a value < 5), flags = high nibble
+		for int(ctl[0])%len(defEntries) != e {
+			ctl[0] += 0x10
+		}
 		seed := seedDeflate(t, "seed")
 		body, n := mutate(t, seed, func() []byte { return seedDeflate(t, "other") }, m)
+		if e == 4 {
+			// reused reader: two or three payloads, each valid, mutated or cut short
+			parts := [][]byte{body}
+			for k := rapid.IntRange(1, 2).Draw(t, "moreParts"); k > 0; k-- {
+				p := seedDeflate(t, "part")
+				switch rapid.IntRange(0, 3).Draw(t, "partKind") {
+				case 0:
+					p, _ = mutate(t, p, func() []byte { return seedDeflate(t, "partOther") }, m)
+				case 1:
+					if len(p) > 0 {
+						p = p[:rapid.IntRange(0, len(p)-1).Draw(t, "partCut")]
+					}
+				}
+				if rapid.Bool().Draw(t, "front") {
+					parts = append([][]byte{p}, parts...)
+				} else {
+					parts = append(parts, p)
+				}
+			}
+			body = bytes.Join(parts, partSep)
+		}
 		hx.Class(fmt.Sprintf("deflate/mutations=%d", n))
 		runCase(t, targetDeflate, ctl, body)
 	})
+}
+
+// utf8EdgeStream draws a fragmented text message whose first fragment has a
+// size around the caller-buffer sizes (io.ReadAll: 512, then growth) and may
+// end inside a multi-byte sequence, followed by empty fragments (with control
+// frames in between) and a final fragment that is empty or carries the rest.
+func utf8EdgeStream(t *rapid.T, label string, masked bool) []byte {
+	var size int
+	switch rapid.IntRange(0, 3).Draw(t, label+".sizekind") {
+	case 0:
+		size = rapid.IntRange(0, 8).Draw(t, label+".size")
+	case 1:
+		size = rapid.IntRange(400, 520).Draw(t, label+".size")
+	case 2:
+		size = rapid.IntRange(900, 1030).Draw(t, label+".size")
+	default:
+		size = rapid.IntRange(0, 2100).Draw(t, label+".size")
+	}
+	seq := rapid.SampledFrom([]string{"\xc2\x80", "\xe2\x82\xac", "\xf0\x9f\x98\x80", "\xed\x9f\xbf", "\xf4\x8f\xbf\xbf"}).Draw(t, label+".seq")
+	cut := rapid.IntRange(0, len(seq)).Draw(t, label+".cut")
+	mk := func(op byte, fin bool, p []byte) ref.Frame {
+		h := ref.Header{Fin: fin, Op: op, Masked: masked}
+		if masked {
+			h.Mask = gen.Key(t, label+".key")
+		}
+		return ref.Frame{H: h, Payload: p}
+	}
+	fs := []ref.Frame{mk(ref.OpText, false, append(bytes.Repeat([]byte{'a'}, size), seq[:cut]...))}
+	for k := rapid.IntRange(0, 3).Draw(t, label+".empties"); k > 0; k-- {
+		fs = append(fs, mk(ref.OpCont, false, nil))
+		if rapid.IntRange(0, 3).Draw(t, label+".ctl") == 0 {
+			fs = append(fs, gen.CtlFrame(t, label+".ictl", masked))
+		}
+	}
+	if rapid.Bool().Draw(t, label+".emptyFinal") {
+		fs = append(fs, mk(ref.OpCont, true, nil))
+	} else {
+		fs = append(fs, mk(ref.OpCont, true, []byte(seq[cut:])))
+	}
+	if rapid.Bool().Draw(t, label+".more") {
+		fs = append(fs, mk(ref.OpText, true, []byte("next")))
+	}
+	return ref.EncodeAll(fs)
 }
